@@ -266,3 +266,20 @@ def no_partial_reads(F, S, files):
     else:
         out.append(ok("R-WHOCALLS", inst, "", "(%d read sites)" % n, req, "%d read sites, none partial" % n))
     return out, n
+
+
+def pixel_size_check_width(F, S):
+    """The pixel-size cross-check compares full-width quantities: no narrowing of pitch or |height|, product formed in 64 bits."""
+    from ..rules_narrow import r_narrow
+    vp = F.fn(B + "::VerifyPixelSizeMatchesImageDimensionsWithPitch", nparams=4)
+    out, k = r_narrow(F, S, vp, explicit_only=False, sign_conversions=False)
+    n = 0
+    for nd in vp.nodes:
+        if nd["k"] == "BinaryOperator" and nd.get("op") == "*" and "cv" not in nd:
+            n += 1
+            inst = "%s#product-width" % vp.qn
+            if (nd.get("iw") or 0) >= 64:
+                out.append(ok("R-NOWRAP", inst, vp.loc(nd["id"]), vp.qn, "pitch x |height| is formed in 64 bits", "type %s" % nd.get("ct")))
+            else:
+                out.append(bad("R-NOWRAP", inst, vp.loc(nd["id"]), vp.qn, "pitch x |height| is formed in 64 bits", "formed in %s: matches modulo 2^%s only" % (nd.get("ct"), nd.get("iw"))))
+    return out
